@@ -190,7 +190,7 @@ impl PlainValueStore {
                 unreachable!("Reader must be from memory")
             }
         } else {
-            panic!("Cannot use unsized with PlainValueStore");
+            Err(format_error!("Cannot use unsized with PlainValueStore"))
         }
     }
 }
